@@ -301,12 +301,21 @@ class Visitor(ast.NodeVisitor):
     # pylint: disable=invalid-name
     # pylint: disable=missing-docstring
 
-    def __init__(self, variable_lookup: List[Mapping[str, Any]]) -> None:
+    def __init__(
+        self,
+        variable_lookup: List[Mapping[str, Any]],
+        code_names: Optional[Set[str]] = None,
+    ) -> None:
         """
         Initialize.
 
         :param variable_lookup: list of lookup tables to look-up the values of the variables, sorted by precedence
+        :param code_names:
+            names used in the compiled condition; needed to resolve the private names (``self.__x``) which
+            the compiler mangled since the condition was defined in a class body
         """
+        self._code_names = code_names
+
         # _name_to_value maps the variable names to variable values.
         # This is important for Load contexts as well as Store contexts in, e.g., named expressions.
         self._name_to_value = dict()  # type: Dict[str, Any]
@@ -809,7 +818,24 @@ class Visitor(ast.NodeVisitor):
                 )
             )
 
-        result = getattr(value, node.attr)
+        attr = node.attr
+        if (
+            self._code_names is not None
+            and attr.startswith("__")
+            and not attr.endswith("__")
+            and attr not in self._code_names
+        ):
+            # The compiler mangles the private names in a class body (``self.__x`` becomes ``self._SomeClass__x``).
+            for name in sorted(self._code_names):
+                if (
+                    name.startswith("_")
+                    and not name.startswith("__")
+                    and name.endswith(attr)
+                ):
+                    attr = name
+                    break
+
+        result = getattr(value, attr)
 
         self.recomputed_values[node] = result
         return result
